@@ -19,6 +19,9 @@ Registered ==
 RepStatus == {0, 99, 100, 199, 200, 204, 209, 299, 301, 304, 399, 400, 404, 418, 499, 500, 503, 599, 600, 999, 65535}
 
 CType  == {"none", "json", "text_utf8", "text_latin1", "text_unknown_charset", "binary"}
+\* charsets that are not ASCII-compatible (UTF-16, ISO-2022-JP) or that the WHATWG standard maps to the
+\* "replacement" decoder (always an error for a non-empty body); their bodies are encoding specific
+CTypeX == {"text_utf16le", "text_2022jp", "text_replacement"}
 Body   == {"empty", "ascii", "utf8", "invalid_utf8", "json_ok", "json_bad"}
 Expect == {"bytes", "string", "json"}
 Shell  == {"ok", "err_url", "err_io", "err_timeout"}
@@ -30,6 +33,8 @@ Mode == IOEnv.MODE     \* "product": representative statuses x all dimensions; "
 Cases ==
   IF Mode = "product"
   THEN [status : RepStatus, ctype : CType, body : Body, expect : Expect, shell : Shell, hdrs : Hdrs, api : Api]
+       \cup [status : {200, 404}, ctype : CTypeX, body : {"enc_specific", "empty"}, expect : Expect, shell : {"ok"},
+              hdrs : {"none"}, api : Api]
   ELSE [status : 0..65535, ctype : {"none"}, body : {"ascii"}, expect : {"bytes"}, shell : {"ok"},
         hdrs : {"one"}, api : {"command"}]
 
@@ -38,6 +43,8 @@ StringOk(c) ==
   CASE c.ctype \in {"none", "json", "text_utf8", "binary"} -> c.body # "invalid_utf8"
     [] c.ctype = "text_latin1" -> TRUE                 \* every byte string is valid windows-1252
     [] c.ctype = "text_unknown_charset" -> FALSE
+    [] c.ctype \in {"text_utf16le", "text_2022jp"} -> TRUE     \* (the pools hold well-formed bodies)
+    [] c.ctype = "text_replacement" -> c.body = "empty"
 
 JsonOk(c) == c.body = "json_ok"
 
